@@ -1784,7 +1784,7 @@ def _opt_scenarios():
     """(name, assertions builder, symbol domains, goals...)  Every objective is bounded by the assertions, so its
     optimum is attained."""
     return ["int-box", "int-diag", "int-unsat", "bv-unsigned", "bv-signed", "bv-signed-front", "bv-signed-dominated",
-            "bv-signed-dominated-rev", "bv-signed-extreme", "bv-signed-extreme-fwd", "int-front", "bool-soft"]
+            "bv-signed-dominated-rev", "bv-signed-extreme", "bv-signed-extreme-fwd", "bv-mixed-sign", "int-box+q", "int-front+q", "int-front", "bool-soft"]
 
 
 def _opt_job(job):
@@ -1813,7 +1813,18 @@ def _opt_job(job):
         def box(t, lo, hi):
             return [w.app("LE", I(lo), t), w.app("LE", t, I(hi))]
         doms, asserts, goals = {}, [], []
-        if scen == "int-box":
+        pre_query = scen.endswith("+q")      # a one-shot query right before the optimisation (its pop is still pending)
+        if pre_query:
+            scen_ = scen[:-2]
+        else:
+            scen_ = scen
+        if scen_ == "bv-mixed-sign":
+            # the same term as a signed and as an unsigned objective in one call
+            asserts = [w.app("Or", [w.app("Equals", u, w.bv_const(k_, 3)) for k_ in (3, 6, 5, 1)]), w.app("Equals", v, u)]
+            doms = {u: range(8), v: range(8)}
+            goals = [("min u unsigned", Min, [u, False]), ("max u unsigned", Max, [u, False]), ("min u signed", Min, [u, True]),
+                     ("max u signed", Max, [u, True])]
+        elif scen_ == "int-box":
             asserts = box(x, 0, 3) + box(y, -1, 2)
             doms = {x: range(-2, 5), y: range(-2, 5)}
             goals = [("max x", Max, [x]), ("min x", Min, [x]), ("max x+y", Max, [w.app("Plus", x, y)]),
@@ -1865,7 +1876,7 @@ def _opt_job(job):
             doms = {u: rng, v: rng}
             goals = [("min u", Min, [u, True]), ("max u", Max, [u, True]), ("min v", Min, [v, True]), ("max v", Max, [v, True]),
                      ("minmax u,v", MinMax, [[u, v], True]), ("maxmin u,v", MaxMin, [[u, v], True])]
-        elif scen == "int-front":
+        elif scen_ == "int-front":
             asserts = box(x, 0, 3) + box(y, 0, 3) + [w.app("LE", w.app("Plus", x, y), I(3))]
             doms = {x: range(-1, 5), y: range(-1, 5)}
             goals = [("max x", Max, [x]), ("max y", Max, [y]), ("max y", Max, [y])]
@@ -1911,6 +1922,8 @@ def _opt_job(job):
             s_ = it.instantiate(ClassRef(cls), [w.env, logic, Prim(oracle, "oracle")], {})
             for g in asserts:
                 it.call(it.getattr(s_, "add_assertion"), [g])
+            if pre_query:
+                it.call(it.getattr(s_, "is_sat"), [w.app("LE", x, I(2))])
             return s_
 
         def objective_value(term, asg, signed=False):
